@@ -405,7 +405,7 @@ class LinearTime(TimeCachingAdapter):
 
     def _interpolate(self, time):
         if len(self.data) == 1:
-            return self.data[0][1]
+            return self._unpack(self.data[0][1])
 
         for i, (t, data) in enumerate(self.data):
             if time > t:
@@ -467,7 +467,7 @@ class StepTime(TimeCachingAdapter):
 
     def _interpolate(self, time):
         if len(self.data) == 1:
-            return self.data[0][1]
+            return self._unpack(self.data[0][1])
 
         for i, (t, data) in enumerate(self.data):
             if time > t:
